@@ -722,7 +722,7 @@ def model_fuel(case):
 def run_hist(case, stream="hist"):
     trace, registered = drive(case)
     ok, msg = oracle(case, trace, registered)
-    coq = cpair(cz(case["size"]), cbool(case["crn"]), cnat(model_fuel(case)), coq_steps(case, trace))
+    coq = "(" + cpair(cz(case["size"]), cbool(case["crn"]), cnat(model_fuel(case)), coq_steps(case, trace)) + " : c03_case)"
     _LITS.setdefault(stream, []).append(coq)
     nkeys = len(registered)
     codes = sorted({tr["code"] for tr in trace})
@@ -786,7 +786,7 @@ def run_conv(case):
     v, tcell = public_hash(case["size"], [case["dtype"]], [case["cell"]], ["i", 0])
     ok = v is not None and 0 <= v < case["size"]
     return Result(ok=ok, msg="" if ok else f"a key registered alone sits at {v}, outside [0,{case['size']})",
-                  coq=cpair(cz(case["size"]), coq_key([case["cell"]]), coq_cell(tcell), cz(-1 if v is None else v)),
+                  coq="(" + cpair(cz(case["size"]), coq_key([case["cell"]]), coq_cell(tcell), cz(-1 if v is None else v)) + " : Z * key * cell * Z)",
                   key=json.dumps(case), obs=v, tags=(case["dtype"][0],))
 
 
@@ -802,7 +802,7 @@ def run_hashcase(case):
     v, tcell = public_hash(case["size"], case["dtypes"], case["key"], case["t"])
     ok = v is not None and 0 <= v < case["size"]
     return Result(ok=ok, msg="" if ok else f"a key registered alone sits at {v}, outside [0,{case['size']})",
-                  coq=cpair(cz(case["size"]), coq_key(case["key"]), coq_cell(tcell), cz(-1 if v is None else v)),
+                  coq="(" + cpair(cz(case["size"]), coq_key(case["key"]), coq_cell(tcell), cz(-1 if v is None else v)) + " : Z * key * cell * Z)",
                   key=json.dumps(case), obs=v, tags=(f"ncols{len(case['dtypes'])}", "ok" if ok else "out_of_range"))
 
 
@@ -924,7 +924,7 @@ def run_querycase(case):
                 ok, msg = False, f"IndexMap[{labels}] gave code {code}, {res}; the positions are {[cur[l] for l in labels]}"
     cq = lambda q: cpair(czlist(q[0]), cz(q[1]), czlist(q[2]))
     lst = clist("\n    " + cpair(coq_step(st, tr), clist(cq(q) for q in tr["queries"])) for st, tr in zip(case["steps"], trace))
-    coq = cpair(cz(case["size"]), cbool(case["crn"]), cnat(model_fuel(case)), clist(cq(q) for q in q0), lst)
+    coq = "(" + cpair(cz(case["size"]), cbool(case["crn"]), cnat(model_fuel(case)), clist(cq(q) for q in q0), lst) + " : cq_case)"
     nq = len(q0) + sum(len(tr["queries"]) for tr in trace)
     codes = sorted({q[1] for q in q0} | {q[1] for tr in trace for q in tr["queries"]})
     return Result(ok=ok, msg=msg, coq=coq, key=hashlib.sha1(json.dumps(case, sort_keys=True).encode()).hexdigest() if nq else None,
@@ -1133,7 +1133,8 @@ def _finish_mgr(case, imap, size_obs, events, uncounted):
     if ok and kcols and hist_steps:
         ok, msg = oracle({"size": size_obs, "crn": True, "steps": hist_steps}, hist_trace, registered)
     fuel = UNCOUNTED_FUEL if uncounted else FUEL
-    coq = cpair(cz(case["cfg"]), cz(case["pop"]), czlist(ids[k] for k in kcols), cz(size_obs), cnat(fuel), clist("\n    " + r for r in regs_coq))
+    coq = "(" + cpair(cz(case["cfg"]), cz(case["pop"]), czlist(ids[k] for k in kcols), cz(size_obs), cnat(fuel),
+                      clist("\n    " + r for r in regs_coq)) + " : mgr_case)"
     codes = "".join(str(e["code"]) for e in events)
     return Result(ok=ok, msg=msg, coq=coq, key=json.dumps(case, sort_keys=True), obs={"size": size_obs, "codes": codes},
                   tags=(f"nkey{len(kcols)}", f"codes{''.join(sorted(set(codes)))}", "floor" if 10 * case["pop"] > case["cfg"] else "configured"))
